@@ -276,6 +276,29 @@ fn filter_attrs(attrs: &mut Vec<syn::Attribute>, derive_keep: &[String]) {
     *attrs = out;
 }
 
+/// E3: the unit is flat — `crate::a::b::Type::Variant` becomes `Type::Variant`, `crate::a::b::function` becomes `function`.
+struct PathFlatten(u64);
+impl VisitMut for PathFlatten {
+    fn visit_path_mut(&mut self, p: &mut syn::Path) {
+        visit_mut::visit_path_mut(self, p);
+        let first = p.segments.first().map(|s| s.ident.to_string()).unwrap_or_default();
+        if (first == "crate" || first == "super") && p.segments.len() > 1 {
+            let segs: Vec<syn::PathSegment> = p.segments.iter().cloned().collect();
+            let start = segs
+                .iter()
+                .position(|s| s.ident.to_string().chars().next().map(|c| c.is_uppercase()).unwrap_or(false))
+                .unwrap_or(segs.len() - 1);
+            let mut np = syn::punctuated::Punctuated::new();
+            for s in segs.into_iter().skip(start) {
+                np.push(s);
+            }
+            p.segments = np;
+            p.leading_colon = None;
+            self.0 += 1;
+        }
+    }
+}
+
 struct TypeSubst<'a>(&'a BTreeMap<String, String>);
 impl<'a> VisitMut for TypeSubst<'a> {
     fn visit_type_mut(&mut self, t: &mut syn::Type) {
@@ -311,11 +334,13 @@ fn clean_item(it: &mut syn::Item, derive_keep: &[String], subst: &BTreeMap<Strin
         _ => {}
     }
     TypeSubst(subst).visit_item_mut(it);
+    PathFlatten(0).visit_item_mut(it);
 }
 
 // ---- function transformation
 
 struct Rules {
+    let_chains: bool,
     then_with: bool,
     tail_continue: bool,
     msg_format: bool,
@@ -366,6 +391,44 @@ impl<'a> VisitMut for RuleVisitor<'a> {
 
     fn visit_expr_mut(&mut self, e: &mut Expr) {
         visit_mut::visit_expr_mut(self, e);
+        if self.rules.let_chains {
+            if let Expr::If(ifx) = e {
+                let mut conj: Vec<Expr> = Vec::new();
+                flatten_and(&ifx.cond, &mut conj);
+                let has_let = conj.iter().any(|c| matches!(c, Expr::Let(_)));
+                if has_let && conj.len() > 1 {
+                    if ifx.else_branch.is_none() {
+                        // E10: `if a && let P = x && b { body }`  ==>  `if a { if let P = x { if b { body } } }` (no else branch: equivalent)
+                        let mut body: Expr = Expr::Block(syn::ExprBlock { attrs: vec![], label: None, block: ifx.then_branch.clone() });
+                        for c in conj.iter().rev() {
+                            let inner = body;
+                            let blk: Block = match inner {
+                                Expr::Block(b) if b.label.is_none() => b.block,
+                                other => parse_quote!({ #other }),
+                            };
+                            body = parse_quote!(if #c #blk);
+                        }
+                        *e = body;
+                        self.applied.bump("E10-let-chain-nested");
+                    } else if matches!(conj[0], Expr::Let(_)) && !conj[1..].iter().any(|c| matches!(c, Expr::Let(_))) {
+                        // E10: `if let P = x && g { A } else { B }`  ==>  `match x { P if g => A, _ => B }`
+                        if let Expr::Let(l) = &conj[0] {
+                            let pat = &l.pat;
+                            let scrut = &l.expr;
+                            let guards = &conj[1..];
+                            let then_b = &ifx.then_branch;
+                            let else_e = &ifx.else_branch.as_ref().unwrap().1;
+                            let new: Expr = parse_quote!(match #scrut { #pat if #(#guards)&&* => #then_b, _ => #else_e });
+                            *e = new;
+                            self.applied.bump("E10-let-chain-match-guard");
+                        }
+                    } else {
+                        self.applied.warnings.push("E10: let chain with else and several lets is not rewritten".into());
+                    }
+                    return;
+                }
+            }
+        }
         if self.rules.then_with {
             if let Expr::MethodCall(mc) = e {
                 if mc.method == "then_with" && mc.args.len() == 1 {
@@ -400,6 +463,17 @@ impl<'a> VisitMut for RuleVisitor<'a> {
         if self.rules.tail_continue {
             tail_continue_block(&mut l.body, self.applied);
         }
+    }
+}
+
+fn flatten_and(e: &Expr, out: &mut Vec<Expr>) {
+    match e {
+        Expr::Binary(b) if matches!(b.op, syn::BinOp::And(_)) => {
+            flatten_and(&b.left, out);
+            flatten_and(&b.right, out);
+        }
+        Expr::Paren(p) => flatten_and(&p.expr, out),
+        other => out.push(other.clone()),
     }
 }
 
@@ -683,6 +757,7 @@ fn transform_fn(
         .map(|a| a.iter().filter_map(|x| x.as_str().map(String::from)).collect())
         .unwrap_or_default();
     let rules = Rules {
+        let_chains: rule_list.iter().any(|r| r == "E10"),
         then_with: rule_list.iter().any(|r| r == "E4"),
         tail_continue: rule_list.iter().any(|r| r == "E9"),
         msg_format: rule_list.iter().any(|r| r == "E5"),
@@ -698,6 +773,14 @@ fn transform_fn(
     if !subst.is_empty() {
         TypeSubst(subst).visit_signature_mut(sig);
         TypeSubst(subst).visit_block_mut(block);
+    }
+    {
+        let mut pf = PathFlatten(0);
+        pf.visit_signature_mut(sig);
+        pf.visit_block_mut(block);
+        for _ in 0..pf.0 {
+            applied.bump("E3-path-flattened");
+        }
     }
     let after = format!("{} {}", ts_string(sig), ts_string(block));
     let mut calls = CallCollector(BTreeSet::new());
